@@ -1269,6 +1269,7 @@ func buildMessageFieldSchema(pkg *Package, context fieldContext, src protoreflec
 		return &OneofField{
 			fieldContext: context,
 			Ref:          ref,
+			ListRules:    ext.list.GetOneof(),
 		}, nil
 	}
 
